@@ -470,13 +470,14 @@ def check_tree(spec, subs, tmpdir, fails, stats):
             stats['construct_refused'] = stats.get('construct_refused', 0) + 1
             return
         full = orc.full
+        approx = segtree.has_polar(spec)
         if tuple(seg.formatted_shape) != tuple(full.shape):
             fails.append({'kind': 'tree', 'tree': spec, 'sub': None, 'msg': f'formatted_shape {seg.formatted_shape} != shape of full image {full.shape}'})
         if orc.raw is not None and tuple(seg.raw_shape) != tuple(orc.raw.shape):
             fails.append({'kind': 'tree', 'tree': spec, 'sub': None, 'msg': f'raw_shape {seg.raw_shape} != shape of raw image {orc.raw.shape}'})
         try:
             got = seg.read(None, squeeze=False)
-            if got.shape != full.shape or not numpy.array_equal(got, full):
+            if not segtree.arrays_equal(got, full, approx):
                 fails.append({'kind': 'tree', 'tree': spec, 'sub': None, 'msg': 'full read differs from the documented orientation/format transform of the stored samples'})
             if orc.raw is not None:
                 gr = seg.read_raw(None, squeeze=False)
@@ -507,7 +508,7 @@ def check_tree(spec, subs, tmpdir, fails, stats):
                                   'msg': f'unsupported/empty subscript returned data of shape {got.shape}'})
                     break
                 w = numpy.squeeze(want) if squeeze else want
-                if got.shape != w.shape or not numpy.array_equal(got, w):
+                if not segtree.arrays_equal(got, w, approx):
                     fails.append({'kind': 'tree', 'tree': spec, 'sub': sub, 'squeeze': squeeze,
                                   'msg': f'read returned shape {got.shape} / different pixels; numpy selects shape {w.shape}'})
                     break
@@ -585,6 +586,15 @@ def _complex_kept_leaves(spec):
             out += _complex_kept_leaves(spec[k])
     for c in spec.get('children', []):
         out += _complex_kept_leaves(c)
+    return out
+
+
+def _nodes(spec):
+    out = [spec]
+    if 'parent' in spec:
+        out += _nodes(spec['parent'])
+    for c in spec.get('children', []):
+        out += _nodes(c)
     return out
 
 
@@ -713,7 +723,9 @@ def run(tier):
                 case = json.load(open(os.path.join(corpus, fn)))
                 if case.get('kind') == 'tree':
                     ncorp += 1
+                    n0 = len(fails)
                     check_tree(case['tree'], [case['sub']], tmpdir, fails, stats)
+                    del fails[n0 + 1:]          # one report per corpus case
         ntrees = 150 if tier == 'quick' else 2500
         per = 14 if tier == 'quick' else 30
         for _ in range(ntrees):
@@ -732,6 +744,16 @@ def run(tier):
             disagreements += seg_dis
             evaluations += seg_stats['reads'] + seg_stats['full_reads']
             chk.coverage['segment_model'] = seg_stats
+            # search: the numpy oracle on the trees where model and implementation part ways (the subscript that disagreed
+            # and a fresh family of subscripts)
+            for dsg in seg_dis[:10]:
+                try:
+                    shape = segtree.full_shape_of(dsg['tree'])
+                except Exception:
+                    continue
+                subs = ([['tuple'] + [list(x) for x in dsg['sub']]] if dsg.get('sub') else [None]) + \
+                    [rand_subscript(rng, shape) for _ in range(20)]
+                check_tree(dsg['tree'], subs, tmpdir, fails, stats)
         if tier == 'thorough':
             exhaustive_small(fails, stats, tmpdir)
     finally:
@@ -742,8 +764,8 @@ def run(tier):
         'evaluations': evaluations,
         'distinct_nontrivial': len(seen) + len({(c[0], c[1]) for c in cases}),
         'rule': 'kernel cases: exhaustive small scope (n<=5 quick / n<=7 thorough, bounds in [-n-2,n+2], |step|<=3/4) plus random large; '
-                'segment reads: random trees (array/memmap/fileread leaves, subset, reorient, band and block aggregates with holes, '
-                'identity/complex/LUT formats) x random subscripts (ints, negative indices, ellipsis, strides of both signs, out-of-range); '
+                'segment reads: random trees (array/memmap/fileread leaves, subset in formatted and raw basis, reorient, band and block aggregates '
+                'with holes and reversed block definitions, identity / complex IQ QI MP PM kept or collapsed / LUT 1-d 2-d formats) x random subscripts (ints, negative indices, ellipsis, strides of both signs, out-of-range); '
                 'a read is non-trivial when it is non-empty; distinct = distinct (tree class, per-axis (sign, |step|>1, touches-boundary)) tuples '
                 'plus distinct (kernel, n) pairs',
         'samples': [kernel_line(c) for c in cases[:3]] + [{'tree': None}],
@@ -760,9 +782,13 @@ def run(tier):
         'Spec.npIndices is the specification of numpy basic slicing (validated against numpy by enumeration in this run)',
         'N-d composition inside the DataSegment classes: theorem read_refines (Props/C01Seg.lean) is about Spec.Segment, a hand-written '
         'mirror of data_segment.py / format_function.py (no translator); it is tied to the code by the provenance correspondence of this run '
-        '(array / memmap / file-read leaves, reverse + transpose, ReorientationSegment, subsets with and without squeezed axes, band and '
-        'block aggregates with holes, ComplexFormatFunction IQ/QI with collapsed band axis); complex with the band dimension kept, MP/PM and '
-        'LUT format functions are tied by the numpy oracle only',
+        '(array / memmap / file-read leaves, reverse + transpose, ReorientationSegment, subsets with and without squeezed axes in the formatted '
+        'basis and, over identity-format parents, in the raw basis, band and block aggregates with holes and with block definitions of step -1, '
+        'ComplexFormatFunction IQ/QI/MP/PM with the band axis collapsed or kept, SingleLUTFormatFunction with a 1-d or 2-d table); the theorem holds on '
+        'the set of subscripts the code serves (Seg.accepts, also executed by the correspondence: a refusal of the code must be a refusal of '
+        'the model and vice versa); MP/PM and LUT pixel values are named functions of the stored samples in the theorem (numerics: C08) and are '
+        'tied by value with a tolerance; raw-basis subsets over subsets / complex / LUT parents are tied by the numpy oracle only; block '
+        'definitions of step -1 and 2-d lookup tables are modelled as the repaired code serves them (patches F1, F5 of NOTES_SEGFIX)',
         'JPEG/JPEG2000/HDF5 segments outside the model',
     ]
 
